@@ -159,12 +159,12 @@ def roundtrip_vc(S, found, prefix='roundtrip'):
         ctx.assume(z3.And(us >= 31536000000000 * 1000, us <= DATE_MAX_US))
         now = DateV(us)
         fmt = S.resolve('trashcli.put.format_trash_info', 'format_trashinfo')
-        S.resolve('trashcli.put.format_trash_info', 'format_original_location')
-        S.resolve('trashcli.put.format_trash_info', 'format_date')
+        S.note_function('trashcli.put.format_trash_info', 'format_original_location')
+        S.note_function('trashcli.put.format_trash_info', 'format_date')
         pp = S.resolve('trashcli.parse_trashinfo.parse_path', 'parse_path')
         pd = S.resolve('trashcli.parse_trashinfo.parse_deletion_date',
                        'parse_deletion_date')
-        S.resolve('trashcli.parse_trashinfo.parse_trashinfo',
+        S.note_function('trashcli.parse_trashinfo.parse_trashinfo',
                   'ParseTrashInfo.parse_trashinfo')
         try:
             content = V.I.call_function(fmt, [], {'original_location': loc,
